@@ -188,9 +188,15 @@ def run_check(pid: str, tier: str, seed: int, workers: int = 0) -> int:
     prop = load_prop(pid)
     nshards = workers or NWORKERS
     nshards = min(nshards, getattr(prop, "MAX_SHARDS", nshards))
+    evidence_dir, replay_dir = EVIDENCE_DIR, REPLAY_DIR
+    if os.path.realpath(repo) != os.path.realpath("/repo"):
+        # another tree is being probed (seeded changes, refactorings): keep its output apart from the
+        # evidence of the repository itself
+        evidence_dir = os.path.join(EVIDENCE_DIR, ".other")
+        replay_dir = os.path.join(evidence_dir, "replays")
     os.makedirs(WORK_DIR, exist_ok=True)
-    os.makedirs(REPLAY_DIR, exist_ok=True)
-    evidence_path = os.path.join(EVIDENCE_DIR, f"{pid}.json")
+    os.makedirs(replay_dir, exist_ok=True)
+    evidence_path = os.path.join(evidence_dir, f"{pid}.json")
     procs = []
     env = dict(os.environ, PYTHONHASHSEED="0")
     for shard in range(nshards):
@@ -247,7 +253,7 @@ def run_check(pid: str, tier: str, seed: int, workers: int = 0) -> int:
     new_viol = []
     lines = []
     for key, wit in sorted(merged["violations"].items()):
-        path = os.path.join(REPLAY_DIR, f"{pid}-{_slug(key)}.json")
+        path = os.path.join(replay_dir, f"{pid}-{_slug(key)}.json")
         with open(path, "w") as fh:
             json.dump({"property": pid, "key": key, "msg": wit["msg"], "case": wit["case"], "detail": wit["detail"],
                        "seed": seed, "tier": tier}, fh, indent=1)
